@@ -171,6 +171,64 @@ class LastWriteWins(Logic):
             self.o.prepare(self.a.get() + 1)
 
 
+class ReadAfterPrepare(Logic):
+    """get() after prepare() of the same port in one cycle still sees the OLD value (non-blocking `<=`, not `=`)"""
+    def __init__(self, parent, name, a, b, o):
+        super().__init__(parent, name)
+        self.a = self.addIn('a', a)
+        self.b = self.addIn('b', b)
+        self.o = self.addOut('o', o)
+        self.s = 0
+
+    def clock(self):
+        self.o.prepare(self.a.get())
+        self.s = self.o.get()
+        if self.b.get():
+            self.o.prepare((self.o.get() + self.s) & 15)
+
+
+class Chain3(Logic):
+    """three-operand and / or chains: the LAST operand decides"""
+    def __init__(self, parent, name, a, b, o):
+        super().__init__(parent, name)
+        self.a = self.addIn('a', a)
+        self.b = self.addIn('b', b)
+        self.o = self.addOut('o', o)
+        self.s = 0
+
+    def clock(self):
+        if (self.a.get() & 1) and (self.a.get() & 2) and self.b.get():
+            self.o.prepare(1)
+        else:
+            self.o.prepare(0)
+        if (self.a.get() & 4) or (self.a.get() & 8) or self.b.get() == 3:
+            self.s = 1
+        else:
+            self.s = 0
+
+
+class NestRight(Logic):
+    """the same non-associative operator nested as the RIGHT operand: the parentheses are essential"""
+    def __init__(self, parent, name, a, b, o):
+        super().__init__(parent, name)
+        self.a = self.addIn('a', a)
+        self.b = self.addIn('b', b)
+        self.o = self.addOut('o', o)
+        self.s0 = 0
+        self.s1 = 0
+        self.s2 = 0
+        self.s3 = 0
+        self.s4 = 0
+
+    def clock(self):
+        self.s0 = (self.a.get() - (self.b.get() - 3)) & 255
+        self.s1 = self.a.get() // ((self.b.get() | 16) // 4)
+        self.s2 = self.a.get() % (((self.b.get() * 2) + 1) % 4)
+        self.s3 = self.a.get() >> (self.b.get() >> 1)
+        self.s4 = (self.a.get() & 15) << ((self.b.get() & 1) << 1)
+        self.o.prepare(self.s0 ^ self.s3)
+
+
 class CombMux(Logic):
     def __init__(self, parent, name, a, b, o):
         super().__init__(parent, name)
@@ -188,4 +246,4 @@ class CombMux(Logic):
 
 FINDINGS = [('NarrowCond', (1, 1, 1)), ('NarrowShift', (8, 8, 8)), ('OrValue', (4, 4, 4)), ('TernaryComb', (4, 1, 8)),
             ('TernarySeq', (4, 1, 8)), ('PortName', (4, 4, 5)), ('CmpRhs', (4, 1, 1)), ('MatchNoDefault', (1, 1, 1)), ('AugPort', (1, 1, 4))]
-CORNERS = [('MatchFsm', (8, 1, 16)), ('LastWriteWins', (6, 1, 7)), ('CombMux', (5, 2, 8)), ('MatchFsm', (32, 1, 12))]
+CORNERS = [('ReadAfterPrepare', (4, 1, 4)), ('Chain3', (4, 2, 1)), ('NestRight', (8, 3, 8)), ('MatchFsm', (8, 1, 16)), ('LastWriteWins', (6, 1, 7)), ('CombMux', (5, 2, 8)), ('MatchFsm', (32, 1, 12))]
